@@ -26,6 +26,7 @@ inductive Exc
   | pointerLoops
   | pointerOob
   | invalidAddress
+  | invalidDomainName
 deriving DecidableEq, Repr, Inhabited
 
 /-- result of a piece of C++: a value, a libtins exception, or an access outside the object (memory fault) -/
